@@ -635,7 +635,9 @@ impl<S> Env<S> {
     /// This method is a thin wrapper around [`VariableSet::get_or_new`].
     /// If the [`AllExport`] option is on, the variable is
     /// [exported](VariableRefMut::export) before being returned from the
-    /// method.
+    /// method, unless it is read-only. A read-only variable can never be
+    /// assigned to, so the option does not apply to it; exporting it here
+    /// would leave it exported after the caller's assignment has failed.
     ///
     /// You should prefer using this method over [`VariableSet::get_or_new`] to
     /// make sure that the [`AllExport`] option is applied.
@@ -644,7 +646,7 @@ impl<S> Env<S> {
         N: Into<String>,
     {
         let mut variable = self.variables.get_or_new(name, scope);
-        if self.options.get(AllExport) == On {
+        if self.options.get(AllExport) == On && !variable.is_read_only() {
             variable.export(true);
         }
         variable
